@@ -275,3 +275,95 @@ def check_item_sizes(chk, F):
                        "ItemSize of Placeholder::%s is %s, the serialized element needs %s"
                        % (name, linform.show(got), linform.show(w) if w else "?"), where,
                        detail={"variant": name, "size": linform.show(got)})
+
+
+# ---- which children's time-lock summaries a fragment combines, and how -------------------------------------------------------------
+
+def check_timelock_composition(chk, F, rid="R12.11"):
+    """ExtData::type_check's timelock_info per fragment kind, on concrete child summaries"""
+    import itertools
+    from ..interp import Adt, Term
+    from ..report import Unsupported
+    from .. import model
+    from . import c09
+    chk.rule(rid, "the time-lock summary ExtData keeps for every fragment (what has_mixed_timelocks, the mixed-time-lock switch and "
+                  "lift_check read) is the summary of the fragment's spending paths: wrappers pass their child's on; and_v / and_b "
+                  "join both children on one path; or_b / or_c / or_d / or_i keep them on separate paths; andor(X,Y,Z) joins X "
+                  "with Y and keeps Z apart; thresh(k,..) joins any two children when k > 1 and none when k = 1; after / older "
+                  "record their own unit; keys, hashes and multisigs record nothing (evaluated on all combinations of child "
+                  "summaries over {none, csv height, csv time, cltv height, cltv time, both csv kinds on separate paths, "
+                  "already mixed})")
+    try:
+        tcp = F.fn("type_check", file="types/extra_props.rs", container="ExtData")
+    except KeyError as e:
+        chk.fail(rid, "anchor", "missing anchor %s" % e, kind="unanalysable")
+        return
+    chk.saw(tcp)
+    TLI = [a for a in F.adts if a.endswith("extra_props::TimelockInfo")][0]
+    FLD = ("csv_with_height", "csv_with_time", "cltv_with_height", "cltv_with_time", "contains_combination")
+    base = {"none": (0, 0, 0, 0, 0), "csv-h": (1, 0, 0, 0, 0), "csv-t": (0, 1, 0, 0, 0), "cltv-h": (0, 0, 1, 0, 0), "cltv-t": (0, 0, 0, 1, 0),
+            "csv-h|csv-t": (1, 1, 0, 0, 0), "mixed": (0, 0, 1, 1, 1)}
+
+    def tli(v):
+        return Adt(TLI, "TimelockInfo", {f: bool(x) for f, x in zip(FLD, v)})
+
+    def join(a, b, same_path):
+        mix = a[4] or b[4]
+        if same_path:
+            mix = mix or (a[0] and b[1]) or (a[1] and b[0]) or (a[2] and b[3]) or (a[3] and b[2])
+        return (a[0] or b[0], a[1] or b[1], a[2] or b[2], a[3] or b[3], int(bool(mix)))
+
+    def fold(items, same_path):
+        acc = (0, 0, 0, 0, 0)
+        for x in items:
+            acc = join(acc, x, same_path)
+        return acc
+    AND = lambda xs: fold(xs, True)      # noqa: E731
+    OR = lambda xs: fold(xs, False)      # noqa: E731
+    STRUCT = {"AndV": lambda c, k: AND(c), "AndB": lambda c, k: AND(c), "OrB": lambda c, k: OR(c), "OrC": lambda c, k: OR(c),
+              "OrD": lambda c, k: OR(c), "OrI": lambda c, k: OR(c), "AndOr": lambda c, k: OR([AND(c[:2]), c[2]]),
+              "Thresh": lambda c, k: AND(c) if k > 1 else OR(c)}
+    n = 0
+    for v in model.variants(F):
+        probe = model.terminal(F, v)
+        kids = [x for x in probe.fields.values() if isinstance(x, Adt) and x.path == model.MS]
+        nary = v == "Thresh"
+        arity = 3 if nary else len(kids)
+        if arity == 0:
+            continue            # leaves are covered below
+        names = list(base) if arity <= 2 else ["none", "csv-h", "csv-t", "cltv-t", "mixed"]
+        bad = []
+        try:
+            for combo in itertools.product(names, repeat=arity):
+                for k in ((1, 2, 3) if nary else (None,)):
+                    frag = model.terminal(F, v, n=3, k=k or 2)
+                    # (thresh sorts its children by their satisfaction cost: concrete figures there)
+                    frag = c09.concrete_sat_ext(frag) if nary else c09.with_ext(frag)
+                    i = 0
+                    for name, val in frag.fields.items():
+                        if isinstance(val, Adt) and val.path == model.MS:
+                            val.fields["ext"].fields["timelock_info"] = tli(base[combo[i]])
+                            i += 1
+                        elif isinstance(val, Adt) and val.path == model.THRESH:
+                            for c_ in val.fields["inner"].items:
+                                c_.fields["ext"].fields["timelock_info"] = tli(base[combo[i]])
+                                i += 1
+                    res, _m = c09.run_type_check(F, tcp, frag, unc=False)
+                    n += 1
+                    kid_vals = [base[x] for x in combo]
+                    want = STRUCT[v](kid_vals, k) if v in STRUCT else kid_vals[0]
+                    for _conds, r in res:
+                        if not (isinstance(r, Adt) and "timelock_info" in r.fields):
+                            raise Unsupported("ExtData::type_check(%s) gives %r" % (v, r))
+                        t = r.fields["timelock_info"]
+                        got = tuple(int(bool(t.fields[f])) if isinstance(t, Adt) and isinstance(t.fields[f], bool) else repr(t.fields[f] if isinstance(t, Adt) else t)
+                                    for f in FLD)
+                        if got != tuple(int(bool(x)) for x in want):
+                            bad.append("children %s%s: %s, expected %s" % (list(combo), " k=%d" % k if k else "",
+                                                                           dict(zip(FLD, got)), dict(zip(FLD, want))))
+                            break
+            chk.obligation(rid, not bad, v, "%d combination(s); first: %s" % (len(bad), bad[0] if bad else ""),
+                           where="src/miniscript/types/extra_props.rs", detail=bad[:6])
+        except Unsupported as e:
+            chk.fail(rid, "unanalysable:" + v, "unanalysable: %s" % e, where=getattr(e, "where", ""), kind="unanalysable")
+    chk.floor(rid, "fragment x child-summary combinations", n, 800)
